@@ -4,9 +4,9 @@
    dictionaries, character classes and regular-expression texts come from Gen.TokenTables / Gen.Elements, regenerated
    from the source on every run. *)
 From Coq Require Import ZArith List String Ascii Bool.
-From Model Require Import PyBase Tokenize Parser Reader SmilesAst.
+From Model Require Import PyBase Graph Valence Tokenize Parser Reader SmilesAst Recheck.
 From Gen Require Import TokenTables.
-From Proofs Require Import TokenizeProofs ParserProofs ReaderProofs ReaderExt DenoteProofs.
+From Proofs Require Import TokenizeProofs ParserProofs ReaderProofs ReaderExt DenoteProofs RecheckProofs.
 Import ListNotations.
 Open Scope Z_scope.
 
@@ -255,3 +255,52 @@ Theorem C03_read_spell_denote_example :
   denote true (Node 0 C [(None, 1)] []) = Err IncorrectSmiles.
 Proof. exact read_spell_denote_example. Qed.
 Print Assumptions C03_read_spell_denote_example.
+
+
+(* ---- the hydrogen recheck / radical decision tree of create_molecule (Model.Recheck, on top of C04's calc_implicit /
+   check_implicit / calc_labels_atom), for any molecule, atom and switches *)
+(* it raises by itself only the ValueError of the strict mode; every other failure is one of C04's functions on that atom *)
+Theorem C03_recheck_raises : forall fl g n parsed e, recheck_atom fl g n parsed = Err e ->
+  (e = ValueError /\ f_ignore fl = false /\ exists h, parsed = Some h) \/
+  (e = KeyError /\ atom_of g n = None) \/
+  calc_implicit g n = Err e \/ calc_labels_atom g n = Err e \/
+  (exists h, parsed = Some h /\ (check_implicit g n h = Err e \/ check_implicit (with_rad g n true) n h = Err e)).
+Proof. exact recheck_raises. Qed.
+Print Assumptions C03_recheck_raises.
+
+(* organic-subset atoms: the count is calc_implicit's and nothing else changes *)
+Theorem C03_recheck_unwritten : forall fl g n a o, atom_of g n = Some a -> recheck_atom fl g n None = Ok o ->
+  calc_implicit g n = Ok (o_h o) /\ o_rad o = a_rad a /\ o_radicalized o = false /\ o_mismatch o = None.
+Proof. exact recheck_unwritten. Qed.
+Print Assumptions C03_recheck_unwritten.
+
+Theorem C03_recheck_keep_implicit : forall fl g n a h, f_keep_implicit fl = true -> atom_of g n = Some a ->
+  recheck_atom fl g n (Some h) = Ok (mkOut (Some h) (a_rad a) false None).
+Proof. exact recheck_keep_implicit. Qed.
+Print Assumptions C03_recheck_keep_implicit.
+
+(* a written hydrogen count is kept, or reported in chython_implicit_mismatch, or (CX radical mark, no valence state) dropped *)
+Theorem C03_recheck_written : forall fl g n a h o, atom_of g n = Some a -> recheck_atom fl g n (Some h) = Ok o ->
+  o_h o = Some h \/ o_mismatch o = Some h \/ (o_h o = None /\ a_rad a = true /\ o_rad o = true /\ o_radicalized o = false).
+Proof. exact recheck_written. Qed.
+Print Assumptions C03_recheck_written.
+
+(* radicals are guessed only where the radical state makes the written count valid, or for the lone aromatic atom c[c]c *)
+Theorem C03_recheck_radicalized : forall fl g n a h o, atom_of g n = Some a -> recheck_atom fl g n (Some h) = Ok o -> o_radicalized o = true ->
+  a_rad a = false /\ o_rad o = true /\ o_h o = Some h /\ o_mismatch o = None /\
+  (check_implicit (with_rad g n true) n h = Ok true \/
+   (h = 0 /\ a_chg a = 0 /\ is_bcnp (a_num a) = true /\ non8_count g n = 2 /\
+    exists lab, calc_labels_atom g n = Ok lab /\ l_hybridization lab = 4)).
+Proof. exact recheck_radicalized. Qed.
+Print Assumptions C03_recheck_radicalized.
+
+Theorem C03_recheck_examples :
+  let fl := mkFlags true false true false in
+  show_res (show_fresult true) (read_full fl false "C[CH2]C") = "M 1={C|-|-|0|-|-}[2:1],2={C|-|-|0|2|-}[1:1.3:1],3={C|-|-|0|-|-}[2:1] # 1:3,2:2,3:3"%string /\
+  show_res (show_fresult true) (read_full fl false "C[CH]C") = "M 1={C|-|-|0|-|-}[2:1],2={C|-|-|0|1|-}[1:1.3:1],3={C|-|-|0|-|-}[2:1] # 1:3,2:1*r,3:3"%string /\
+  show_res (show_fresult true) (read_full fl false "[NH4]") = "M 1={N|-|-|0|4|-}[] # 1:3m4"%string /\
+  read_full (mkFlags false false true false) false "[NH4]" = Err ValueError /\
+  show_res (show_fresult true) (read_full (mkFlags true false false false) false "c1cc[c]cc1") =
+    "M 1={C|-|-|0|-|-}[2:4.6:4],2={C|-|-|0|-|-}[1:4.3:4],3={C|-|-|0|-|-}[2:4.4:4],4={C|-|-|0|0|-}[3:4.5:4],5={C|-|-|0|-|-}[4:4.6:4],6={C|-|-|0|-|-}[5:4.1:4] # 1:1,2:1,3:1,4:0*r,5:1,6:1"%string.
+Proof. exact recheck_examples. Qed.
+Print Assumptions C03_recheck_examples.
